@@ -13,6 +13,7 @@ import (
 	"github.com/aperturerobotics/bifrost/pubsub"
 	pubmessage "github.com/aperturerobotics/bifrost/pubsub/util/pubmessage"
 	stream_packet "github.com/aperturerobotics/bifrost/stream/packet"
+	"github.com/aperturerobotics/bifrost/util/simhook"
 	"github.com/patrickmn/go-cache"
 	"github.com/pkg/errors"
 	"github.com/sirupsen/logrus"
@@ -97,6 +98,7 @@ func (m *FloodSub) Execute(ctx context.Context) error {
 	pubbedChannels := make(map[string]struct{})
 	for {
 		var initSet []*SubscriptionOpts
+		simhook.Yield("floodsub/execute", "")
 		m.mtx.Lock()
 		for i := range m.incSessions {
 			s := m.incSessions[i]
@@ -204,6 +206,7 @@ func (m *FloodSub) execPublish(prevHopPeerID peer.ID, pubMsg *publishChMsg) {
 	}
 	chid := pubMsg.channelID
 	tosend := make(map[pubsub.PeerLinkTuple]struct{})
+	simhook.Yield("floodsub/exec-publish", chid)
 	m.mtx.Lock()
 	if peerChannels, ok := m.peerChannels[chid]; ok {
 		for p := range peerChannels {
@@ -278,6 +281,7 @@ func (m *FloodSub) AddPeerStream(
 		stream:    stream_packet.NewSession(mstrm.GetStream(), maxMessageSize),
 		initiator: initiator,
 	}
+	simhook.Yield("floodsub/add-peer-stream", tpl.PeerID.String())
 	m.mtx.Lock()
 	// if !initiator {
 	if e, ok := m.peers[tpl]; ok {
@@ -355,11 +359,13 @@ func (m *FloodSub) handleValidMessage(
 		return
 	}
 	msg := pubmessage.NewMessage(pid, pktInner)
+	simhook.Yield("floodsub/handle-valid", channelID)
 	m.mtx.Lock()
 	subs := m.channels[channelID]
 	for sub := range subs {
 		ss := sub
 		go func() {
+			simhook.Yield("floodsub/deliver", channelID)
 			ss.mtx.Lock()
 			for s := range ss.handlers {
 				s.cb(msg)
